@@ -190,7 +190,19 @@ func ruleCursorValidated(c *Ctx, r *R) {
 			cal := staticCallee(&call.Call)
 			return cal != nil && fname(cal) == "lost"
 		}
-		pf := &PF{N: 4}
+		// accessor methods of the cursor (pair(), valueUnchecked(), ...) are analysed in place: their reads of the node count as
+		// reads of the caller, under the caller's validation state and their own nil test
+		isAccessor := func(f *ssa.Function) bool {
+			if f == nil || f.Blocks == nil || f.Signature.Recv() == nil || !isNamedType(f.Signature.Recv().Type(), treeRel, "cursor") {
+				return false
+			}
+			switch f.Name() {
+			case "Next", "Prev", "lost", "refind", "find", "seek", "Ok", "Key", "Forward", "Backward", "Value":
+				return false
+			}
+			return !strings.HasPrefix(f.Name(), "Seek")
+		}
+		pf := &PF{N: 4, DeepVisit: true, InScope: func(f *ssa.Function) bool { return isAccessor(origin(f)) && origin(f) != fn }}
 		pf.Instr = func(f *ssa.Function, in ssa.Instruction, q int) (StateSet, bool) {
 			switch x := in.(type) {
 			case *ssa.Call:
